@@ -118,6 +118,9 @@ MUTATORS = {
         ("every thread does all blocks", r"quimb/core\.py$", r"^(\s+)for b in range\(thread_rank, num_blocks, num_threads\):\s*$", r"\1for b in range(num_blocks):"),
         ("no lower clamp", r"quimb/core\.py$", r"^(\s+)num_blocks = max\(num_blocks, 1\)\s*$", None),
         ("futures unobserved", r"quimb/core\.py$", r"^(\s+)future\.result\(\)\s*$", r"\1pass"),
+        ("rows from the vector length", r"quimb/core\.py$", r"^(\s+)N = out\.size\s*$", r"\1N = vec.size"),
+        ("serial out not cleared", r"quimb/operator/builder\.py$", r"^(\s+)out\[\.\.\.\] = 0\.0\s*$", r"\1pass"),
+        ("thread buffers uninitialised", r"quimb/operator/builder\.py$", r"^(\s+)out_i = np\.zeros_like\(x, dtype=dtype, shape=\(world_size, x\.size\)\)\s*$", r"\1out_i = np.empty_like(x, dtype=dtype, shape=(world_size, x.size))"),
         ("stride ignores rank", r"quimb/operator/configcore\.py$", r"^(\s+)for ci in range\(world_rank, D, world_size\):\s*$", r"\1for ci in range(0, D, world_size):"),
     ],
     "C17": [
